@@ -15,7 +15,7 @@ Definition dur_add (a b : Z) : Z := wrap64 (a + b).
 Definition raw_time (v : bytes) : option Z :=
   match v with
   | [] => None
-  | _ => option_map (fun s => s * second) (parse_imf_fixdate v)
+  | _ => option_map (fun s => s * second) (parse_http_time v)
   end.
 
 (* Response.DateHeader(): the zero time.Time when missing/invalid *)
